@@ -7,6 +7,11 @@
  */
 #ifndef VF_CBMC_RT_H
 #define VF_CBMC_RT_H
+#if defined(VF_SEQ) || defined(VF_SEQUENTIAL)
+/* single CBMC thread: atomic sections are meaningless (and CBMC rejects unbalanced ones) */
+#define __CPROVER_atomic_begin() ((void)0)
+#define __CPROVER_atomic_end() ((void)0)
+#endif
 #include <stdint.h>
 #include <stddef.h>
 #include <stdlib.h>
@@ -111,7 +116,11 @@ _Bool vf_slot_begin(int k);
 #else
 #define VF_CHECK(c, label) __CPROVER_assert((c), "check: " label)
 #endif
+#ifdef VF_WITNESS
 #define VF_REACH(label) __CPROVER_assert(0, "reach: " label)
+#else
+#define VF_REACH(label) ((void)0) /* reachability markers are decided by the witness twin only */
+#endif
 #define VF_UNREACHABLE(fn) do { __CPROVER_assert(0, "ub: unreachable reached in " fn); __CPROVER_assume(0); } while (0)
 
 #define VF_PUN(T, S, v) (*(T *)&(S){v})
@@ -139,6 +148,12 @@ extern uint64_t vf_parked[VF_NTHREADS]; /* addresses as integers: CBMC does not 
 extern _Bool vf_spawned[VF_NTHREADS];
 extern uint64_t vf_thr_arg[VF_NTHREADS];
 void vf_thread_done(int t);
+/* typed allocation: the object gets element type T when the size is a multiple of sizeof(T) */
+#define VF_MALLOC_T(T, n) vf_nonnull(((uint64_t)(n) % sizeof(T) == 0) \
+    ? __CPROVER_allocate(sizeof(T) * ((uint64_t)(n) / sizeof(T)), 0) : __CPROVER_allocate((uint64_t)(n), 0))
+static inline void *vf_nonnull(void *p) { __CPROVER_assume(p != 0); return p; }
+void *vf_aligned_malloc(uint64_t bytes, uint64_t alignment); /* contract of detail::alignedMalloc (C44) */
+void vf_aligned_free(void *p);
 /* --- libc / c++ runtime -------------------------------------------------------------------- */
 void *vf_malloc(uint64_t n);
 void *vf_malloc_nt(uint64_t n, void *);
@@ -182,6 +197,16 @@ int vf_mutex_lock(void *m);
 int vf_mutex_unlock(void *m);
 int vf_mutex_trylock(void *m);
 int vf_personality(int, int, uint64_t, void *, void *);
+/* std::thread model: the n-th started std::thread corresponds to model thread n (spawn order) */
+void vf_std_thread_start(void *thr, void *state_uptr, void *dep);
+void vf_std_thread_join(void *thr);
+void vf_std_thread_detach(void *thr);
+unsigned vf_hw_concurrency(void);
+void vf_std_thread_state_dtor(void *st);
+void *vf_getenv(void *name);
+uint64_t vf_strtoul(void *s, void *end, int base);
+void vf_block_until(uint32_t *nonzero); /* block the calling thread until *nonzero != 0 */
+void vf_wait_started(uint32_t n);       /* block until the n-th std::thread has been started */
 
 /* exceptions: opaque tokens */
 void *vf_cxa_begin_catch(void *);
